@@ -88,6 +88,12 @@ UNITS = [
     ("Hcomp", '#include "hdf_priv.h"\n#include "%s/hcomp.c"\n' % HS, ["COMP_HEADER_VERSION", "COMP_START_BLOCK"], []),
     # C02 format reader: the member the SD interface adds to its NDG groups and never writes as an element
     ("FmtNc", '#include "hdf_priv.h"\n#include "nc_priv.h"\n', ["BOGUS_TAG"], []),
+    # C02 format reader, old-style descriptive records (DFTAG_NT / DFTAG_SDD / DFTAG_ID / DFTAG_LD and their groups)
+    ("FmtDesc", '#include "hdf_priv.h"\n#include "vg_priv.h"\n#include "mfgr_priv.h"\n#include "nc_priv.h"\n#include "mfhdf.h"\n',
+     ["DFTAG_MD", "DFTAG_ID8", "DFTAG_RI8", "DFTAG_CI8", "DFTAG_II8", "DFTAG_JPEG", "DFTAG_GREYJPEG", "DFNT_VERSION", "DFNT_NONE",
+      "DFNTF_IEEE", "DFNTF_PC", "DFNTF_VP", "DFNTC_BYTE", "DFNTC_EBCDIC", "DFIL_PIXEL", "DFIL_LINE", "DFIL_PLANE"],
+     [("RI_CLASS", "((unsigned char *)RI_NAME)", "strlen(RI_NAME)"),
+      ("VAR_CLASS", "((unsigned char *)_HDF_VARIABLE)", "strlen(_HDF_VARIABLE)")]),
     # element / linked-block layer (C01): special-tag bit arithmetic evaluated by the compiler on the real macros
     ("Elem", '#include "hdf_priv.h"\n#include "hfile_priv.h"\n',
      [("SPECIAL_TAG_BIT", "MKSPECIALTAG(0)"), ("MKSPECIAL_100", "MKSPECIALTAG(100)"), ("MKSPECIAL_LINKED", "MKSPECIALTAG(DFTAG_LINKED)"),
